@@ -135,6 +135,23 @@ def lexicographic_less(fn, label):
         v = fn.n(fn.strip(r["value"]))
         if r["id"] in body:
             cid, in_then = enclosing_if_cond(fn, r["id"])
+            if cid is not None and "v" not in v:
+                # `if (x != y) return x < y;` decides both strict orders at once
+                fn.keep_casts = True
+                try:
+                    ct = xterm(fn, cid, local_defs(fn))
+                    rt = xterm(fn, r["value"], local_defs(fn))
+                finally:
+                    fn.keep_casts = False
+                if ct[0] == "op" and ct[1] == "!=" and rt[0] == "op" and rt[1] in ("<", ">") and {ct[2], ct[3]} == {rt[2], rt[3]} and in_then:
+                    l, rr, op = rt[2], rt[3], rt[1]
+                    if mentions(l, b):
+                        l, rr = rr, l
+                        op = "<" if op == ">" else ">"
+                    other = ">" if op == "<" else "<"
+                    seen[op] = (True, r, ("op", op, l, rr))
+                    seen[other] = (False, r, ("op", other, l, rr))
+                    continue
             if cid is None or "v" not in v:
                 raise AnalysisBroken("%s: a return inside the loop is not of the form `if (cmp) return <bool>`" % fn.qn)
             fn.keep_casts = True
